@@ -98,7 +98,11 @@ func (m HMsg) Build(caller crypto.Address, keys []Key) std.Msg {
 				args[i] = a
 			}
 		}
-		return vm.NewMsgCall(caller, send, m.Pkg, m.Fn, args)
+		mc := vm.NewMsgCall(caller, send, m.Pkg, m.Fn, args)
+		if m.Dep > 0 {
+			mc.MaxDeposit = std.Coins{std.NewCoin("ugnot", m.Dep)}
+		}
+		return mc
 	case "addpkg":
 		var dep std.Coins
 		if m.Dep > 0 {
@@ -116,7 +120,11 @@ func (m HMsg) Build(caller crypto.Address, keys []Key) std.Msg {
 		if m.Send > 0 {
 			send = std.Coins{std.NewCoin("ugnot", m.Send)}
 		}
-		return vm.NewMsgRun(caller, send, []*std.MemFile{{Name: "main.gno", Body: m.Body}})
+		mr := vm.NewMsgRun(caller, send, []*std.MemFile{{Name: "main.gno", Body: m.Body}})
+		if m.Dep > 0 {
+			mr.MaxDeposit = std.Coins{std.NewCoin("ugnot", m.Dep)}
+		}
+		return mr
 	}
 	panic("bad msg kind " + m.Kind)
 }
@@ -145,6 +153,8 @@ var callTable = []struct {
 		return []string{rapid.StringMatching("[a-d]").Draw(rt, "k"), itoa(rapid.IntRange(0, 5).Draw(rt, "n"))}
 	}},
 	{PathMulti, "BothThenBoom", func(rt *rapid.T, n int) []string { return []string{"q", "1"} }},
+	{PathMulti, "Grow", func(rt *rapid.T, n int) []string { return []string{rapid.StringMatching("[a-d]{1,8}").Draw(rt, "k")} }},
+	{PathMulti, "Grow", func(rt *rapid.T, n int) []string { return []string{rapid.StringMatching("[a-d]{1,8}").Draw(rt, "k")} }},
 	{PathBank, "Deposit", func(rt *rapid.T, n int) []string { return nil }},
 	{PathBank, "Pay", func(rt *rapid.T, n int) []string {
 		return []string{"@" + itoa(rapid.IntRange(-2, n-1).Draw(rt, "to")), itoa(rapid.SampledFrom([]int{0, 1, 50, 5000, 1 << 40}).Draw(rt, "amt"))}
@@ -192,10 +202,12 @@ func DrawMsg(rt *rapid.T, nacc int) HMsg {
 			Dep: rapid.SampledFrom([]int64{0, 0, 1, 100_000_000}).Draw(rt, "dep")}
 	case 3:
 		i := rapid.IntRange(0, len(runBodies)-1).Draw(rt, "run")
-		return HMsg{Kind: "run", Body: runBodies[i]}
+		return HMsg{Kind: "run", Body: runBodies[i], Dep: rapid.SampledFrom([]int64{0, 0, 0, 1}).Draw(rt, "dep")}
 	default:
 		e := callTable[rapid.IntRange(0, len(callTable)-1).Draw(rt, "fn")]
 		m := HMsg{Kind: "call", Pkg: e.pkg, Fn: e.fn, Args: e.args(rt, nacc)}
+		// a too-small MaxDeposit makes every realm whose storage grows report an error
+		m.Dep = rapid.SampledFrom([]int64{0, 0, 0, 0, 1, 100_000_000}).Draw(rt, "dep")
 		if e.fn == "Deposit" {
 			m.Send = rapid.SampledFrom([]int64{0, 5000, 1_000_000}).Draw(rt, "send")
 		}
